@@ -1,6 +1,7 @@
 package sim
 
 import (
+	"os"
 	"bytes"
 	"fmt"
 	"math/big"
@@ -230,7 +231,10 @@ func (o *C18) AfterEnd(w *World) {
 
 // ------------------------------------------------------------------------------------------------
 // C19 — fees and commissions are distributed within what was collected.
-type C19 struct{ BaseOracle }
+type C19 struct {
+	BaseOracle
+	hashCnt map[string]int // tx hash -> transfers executed in this block carrying it (a fee record is keyed by the hash)
+}
 
 func (*C19) Property() string { return "C19" }
 
@@ -238,7 +242,16 @@ func floorHub(v *big.Int, dec uint64) *big.Int { return ratFloor(ToHubUnits(v, d
 
 func (o *C19) AfterEnd(w *World) {
 	t := w.T()
-	st := w.ReadState()
+	// executions applied by this EndBlock, grouped by the hub denomination they pay out in: payouts of
+	// one denomination are attributable to the group, not to a single execution
+	type exec struct {
+		chain string
+		e     *mhub2types.BatchExecutedEvent
+		b     *mhub2types.BatchTx
+		tk    *TokenCfg
+	}
+	groups := map[string][]exec{}
+	o.hashCnt = map[string]int{}
 	for _, a := range t.Applied {
 		e, ok := a.Event.(*mhub2types.BatchExecutedEvent)
 		if !ok {
@@ -252,21 +265,43 @@ func (o *C19) AfterEnd(w *World) {
 		if tk == nil {
 			continue
 		}
-		// only one execution per block is attributable
-		n := 0
-		for _, x := range t.Applied {
-			if _, ok := x.Event.(*mhub2types.BatchExecutedEvent); ok {
-				n++
-			}
+		groups[tk.Denom] = append(groups[tk.Denom], exec{a.Chain, e, b, tk})
+		for _, tx := range b.Transactions {
+			o.hashCnt[tx.TxHash]++
 		}
-		if n != 1 {
-			w.St.Probe("several-executions-in-block-skipped")
+	}
+	for _, denom := range sortedKeys(groups) {
+		g := groups[denom]
+		if len(g) > 1 {
+			w.St.Probe("several-executions-of-a-denom-in-block")
+		}
+		o.checkGroup(w, denom, len(g), func(f func(chain string, e *mhub2types.BatchExecutedEvent, b *mhub2types.BatchTx, tk *TokenCfg)) {
+			for _, x := range g {
+				f(x.chain, x.e, x.b, x.tk)
+			}
+		})
+		if w.Stopped() {
 			return
 		}
-		w.St.Check("C19:execution")
-		w.St.Probe("nontrivial")
+	}
+}
+
+func (o *C19) checkGroup(w *World, denom string, n int, each func(func(chain string, e *mhub2types.BatchExecutedEvent, b *mhub2types.BatchTx, tk *TokenCfg))) {
+	t := w.T()
+	st := w.ReadState()
+	mtk := w.Cfg.TokenByDenom("minter", denom)
+	if mtk == nil {
+		return
+	}
+	w.St.Check("C19:execution")
+	w.St.Probe("nontrivial")
+	C, F := new(big.Int), new(big.Int)
+	feeBy := map[string]*big.Int{} // refund address -> hub-unit fees paid
+	cntBy := map[string]int{}
+	payers := map[string]bool{}
+	what := ""
+	each(func(chain string, e *mhub2types.BatchExecutedEvent, b *mhub2types.BatchTx, tk *TokenCfg) {
 		sumC, sumF := new(big.Int), new(big.Int)
-		feeBy := map[string]*big.Int{} // refund address -> hub-unit fees paid
 		for _, tx := range b.Transactions {
 			sumC.Add(sumC, tx.ValCommission.Amount.BigInt())
 			sumF.Add(sumF, tx.Fee.Amount.BigInt())
@@ -275,99 +310,133 @@ func (o *C19) AfterEnd(w *World) {
 				feeBy[k] = new(big.Int)
 			}
 			feeBy[k].Add(feeBy[k], floorHub(tx.Fee.Amount.BigInt(), tk.Decimals))
+			cntBy[k]++
 		}
-		C := floorHub(sumC, tk.Decimals)
-		F := floorHub(sumF, tk.Decimals)
-		// new transfers on the Minter chain created by this EndBlock
-		var comm, fees []*mhub2types.SendToExternal
-		for id, x := range t.Cur.Pool["minter"] {
-			if _, old := t.PreEnd.Pool["minter"][id]; old {
-				continue
-			}
-			if _, oldb := t.PreEnd.InBatch["minter"][id]; oldb {
-				continue
-			}
-			switch x.TxHash {
-			case "#commission":
-				comm = append(comm, x)
-			case "#fee":
-				fees = append(fees, x)
-			}
+		C.Add(C, floorHub(sumC, tk.Decimals))
+		F.Add(F, floorHub(sumF, tk.Decimals))
+		payers[strings.ToLower(e.FeePayer)] = true
+		if what != "" {
+			what += " + "
 		}
-		sort.Slice(comm, func(i, j int) bool { return comm[i].Id < comm[j].Id })
-		sort.Slice(fees, func(i, j int) bool { return fees[i].Id < fees[j].Id })
-		// --- commission: proportional to voting power, sum <= collected
-		paid := new(big.Int)
+		what += fmt.Sprintf("%s batch %d", chain, b.BatchNonce)
+	})
+	// new transfers on the Minter chain created by this EndBlock in this denomination
+	var comm, fees []*mhub2types.SendToExternal
+	for id, x := range t.Cur.Pool["minter"] {
+		if _, old := t.PreEnd.Pool["minter"][id]; old {
+			continue
+		}
+		if _, oldb := t.PreEnd.InBatch["minter"][id]; oldb {
+			continue
+		}
+		if x.Token.ExternalTokenId != mtk.ExtID {
+			continue
+		}
+		switch x.TxHash {
+		case "#commission":
+			comm = append(comm, x)
+		case "#fee":
+			fees = append(fees, x)
+		}
+	}
+	sort.Slice(comm, func(i, j int) bool { return comm[i].Id < comm[j].Id })
+	sort.Slice(fees, func(i, j int) bool { return fees[i].Id < fees[j].Id })
+	if os.Getenv("MHUBSIM_DEBUG") != "" {
+		fmt.Fprintf(os.Stderr, "C19 group %s: %s C=%s F=%s\n", denom, what, C, F)
 		for _, x := range comm {
-			paid.Add(paid, x.Token.Amount.BigInt())
-			if x.Token.Amount.IsNegative() {
-				w.Fail("C19", "commission-split", "negative", "negative commission payout")
-				return
-			}
+			fmt.Fprintf(os.Stderr, "  comm id=%d to=%s amt=%s\n", x.Id, x.ExternalRecipient, x.Token.Amount)
 		}
-		if paid.Cmp(C) > 0 {
-			w.Fail("C19", "commission-split", "sum", fmt.Sprintf("%s batch %d: validators were paid %s in commission, %s was collected", a.Chain, b.BatchNonce, paid, C))
-			return
-		}
-		if len(comm) > 0 {
-			w.St.Probe("commission-paid")
-			mem := currentMembers(st, "minter")
-			var S int64
-			byAddr := map[[20]byte]int64{}
-			for _, m := range mem {
-				S += m.stake
-				byAddr[m.addr] += m.stake
-			}
-			for _, x := range comm {
-				s, ok := byAddr[parse20(x.ExternalRecipient)]
-				if !ok {
-					w.Fail("C19", "commission-split", "stranger", fmt.Sprintf("commission paid to %s, which is not the Minter key of a bonded validator", x.ExternalRecipient))
-					return
-				}
-				exact := new(big.Rat).Mul(new(big.Rat).SetInt(C), new(big.Rat).SetFrac64(s, S))
-				diff := new(big.Rat).Sub(new(big.Rat).SetInt(x.Token.Amount.BigInt()), exact)
-				tol := new(big.Rat).Add(big.NewRat(1, 1), new(big.Rat).Mul(new(big.Rat).SetInt(C), new(big.Rat).SetFrac64(int64(len(mem))+1, 1<<32)))
-				if diff.Abs(diff).Cmp(tol) > 0 {
-					w.Fail("C19", "commission-split", "proportion", fmt.Sprintf("validator with %d of %d power was paid %s of %s commission (exact share %s)", s, S, x.Token.Amount, C, exact.FloatString(2)))
-					return
-				}
-			}
-		}
-		// --- fees: reimbursement + refunds <= collected; each user's refund <= that user's fee
-		payer := strings.ToLower(e.FeePayer)
-		tot := new(big.Int)
-		gotBy := map[string]*big.Int{}
 		for _, x := range fees {
-			tot.Add(tot, x.Token.Amount.BigInt())
-			k := strings.ToLower(x.ExternalRecipient)
-			if gotBy[k] == nil {
-				gotBy[k] = new(big.Int)
-			}
-			gotBy[k].Add(gotBy[k], x.Token.Amount.BigInt())
+			fmt.Fprintf(os.Stderr, "  fee id=%d to=%s amt=%s\n", x.Id, x.ExternalRecipient, x.Token.Amount)
 		}
-		w.St.Check("C19:reimburse-cap")
-		if tot.Cmp(F) > 0 {
-			w.Fail("C19", "reimburse-cap", "sum", fmt.Sprintf("%s batch %d: %s was paid out of fees, %s was collected", a.Chain, b.BatchNonce, tot, F))
+	}
+	// --- commission: proportional to voting power, sum <= collected
+	paid := new(big.Int)
+	for _, x := range comm {
+		paid.Add(paid, x.Token.Amount.BigInt())
+		if x.Token.Amount.IsNegative() {
+			w.Fail("C19", "commission-split", "negative", "negative commission payout")
 			return
 		}
-		for _, k := range sortedKeys(gotBy) {
-			if k == payer {
-				w.St.Probe("relayer-reimbursed")
-				continue
-			}
-			w.St.Check("C19:refund-cap")
-			w.St.Probe("fee-refunded")
-			lim := feeBy[k]
-			if lim == nil {
-				w.Fail("C19", "refund-cap", "stranger", fmt.Sprintf("fee refund to %s, which paid no fee in batch %d", k, b.BatchNonce))
+	}
+	if paid.Cmp(C) > 0 {
+		w.Fail("C19", "commission-split", "sum", fmt.Sprintf("%s: validators were paid %s in commission, %s was collected", what, paid, C))
+		return
+	}
+	if len(comm) > 0 {
+		w.St.Probe("commission-paid")
+		mem := currentMembers(st, "minter")
+		var S int64
+		byAddr := map[[20]byte]int64{}
+		for _, m := range mem {
+			S += m.stake
+			byAddr[m.addr] += m.stake
+		}
+		gotC := map[[20]byte]*big.Int{}
+		var order [][20]byte
+		for _, x := range comm {
+			k := parse20(x.ExternalRecipient)
+			if _, ok := byAddr[k]; !ok {
+				w.Fail("C19", "commission-split", "stranger", fmt.Sprintf("commission paid to %s, which is not the Minter key of a bonded validator", x.ExternalRecipient))
 				return
 			}
-			if gotBy[k].Cmp(lim) > 0 {
-				w.Fail("C19", "refund-cap", "amount", fmt.Sprintf("%s was refunded %s of fees but paid only %s in batch %d", k, gotBy[k], lim, b.BatchNonce))
+			if gotC[k] == nil {
+				gotC[k] = new(big.Int)
+				order = append(order, k)
+			}
+			gotC[k].Add(gotC[k], x.Token.Amount.BigInt())
+		}
+		for _, k := range order {
+			s := byAddr[k]
+			// proportional to voting power: each share of what was paid out (an execution whose payout
+			// fails as a whole, e.g. for want of a price, pays nobody: 'paid' may be below 'collected')
+			exact := new(big.Rat).Mul(new(big.Rat).SetInt(paid), new(big.Rat).SetFrac64(s, S))
+			diff := new(big.Rat).Sub(new(big.Rat).SetInt(gotC[k]), exact)
+			tol := new(big.Rat).Add(big.NewRat(int64(n)*int64(len(mem)+1), 1), new(big.Rat).Mul(new(big.Rat).SetInt(C), new(big.Rat).SetFrac64(int64(len(mem))+1, 1<<32)))
+			if diff.Abs(diff).Cmp(tol) > 0 {
+				w.Fail("C19", "commission-split", "proportion", fmt.Sprintf("validator with %d of %d power was paid %s of the %s paid in commission (exact share %s)", s, S, gotC[k], paid, exact.FloatString(2)))
 				return
 			}
 		}
-		// --- per-transfer fee record: within [0, fee paid], in external units
+	}
+	// --- fees: reimbursement + refunds <= collected; each user's refund <= that user's fee
+	tot := new(big.Int)
+	gotBy := map[string]*big.Int{}
+	for _, x := range fees {
+		tot.Add(tot, x.Token.Amount.BigInt())
+		k := strings.ToLower(x.ExternalRecipient)
+		if gotBy[k] == nil {
+			gotBy[k] = new(big.Int)
+		}
+		gotBy[k].Add(gotBy[k], x.Token.Amount.BigInt())
+	}
+	w.St.Check("C19:reimburse-cap")
+	if tot.Cmp(F) > 0 {
+		w.Fail("C19", "reimburse-cap", "sum", fmt.Sprintf("%s: %s was paid out of fees, %s was collected", what, tot, F))
+		return
+	}
+	for _, k := range sortedKeys(gotBy) {
+		if payers[k] {
+			w.St.Probe("relayer-reimbursed")
+			continue
+		}
+		w.St.Check("C19:refund-cap")
+		w.St.Probe("fee-refunded")
+		lim := feeBy[k]
+		if lim == nil {
+			w.Fail("C19", "refund-cap", "stranger", fmt.Sprintf("fee refund to %s, which paid no fee in %s", k, what))
+			return
+		}
+		if gotBy[k].Cmp(lim) > 0 {
+			w.Fail("C19", "refund-cap", "amount", fmt.Sprintf("%s was refunded %s of fees but paid only %s in %s", k, gotBy[k], lim, what))
+			return
+		}
+	}
+	// --- per-transfer fee record: within [0, fee paid], in external units
+	each(func(chain string, e *mhub2types.BatchExecutedEvent, b *mhub2types.BatchTx, tk *TokenCfg) {
+		if w.Stopped() {
+			return
+		}
 		for _, tx := range b.Transactions {
 			if strings.HasPrefix(tx.TxHash, "#") {
 				continue
@@ -376,6 +445,9 @@ func (o *C19) AfterEnd(w *World) {
 			if rec == nil {
 				continue
 			}
+			if o.hashCnt[tx.TxHash] != 1 {
+				continue // several transfers of one hub transaction executed together: the record speaks for the last one
+			}
 			w.St.Check("C19:fee-record-range")
 			if rec.ExternalFee.IsNegative() || rec.ExternalFee.GT(tx.Fee.Amount) {
 				w.Fail("C19", "fee-record-range", "dec"+strconv.FormatUint(tk.Decimals, 10), fmt.Sprintf("fee record of %s reports %s kept of a fee of %s (token with %d external decimals)", tx.TxHash, rec.ExternalFee, tx.Fee.Amount, tk.Decimals))
@@ -383,13 +455,7 @@ func (o *C19) AfterEnd(w *World) {
 			}
 			// the fee kept is the fee paid minus the refund, in external units (when this user's refund is attributable)
 			k := strings.ToLower(tx.RefundAddress)
-			cnt := 0
-			for _, y := range b.Transactions {
-				if strings.ToLower(y.RefundAddress) == k {
-					cnt++
-				}
-			}
-			if cnt == 1 && k != payer {
+			if cntBy[k] == 1 && !payers[k] && o.hashCnt[tx.TxHash] == 1 {
 				ref := gotBy[k]
 				if ref == nil {
 					ref = new(big.Int)
@@ -409,5 +475,5 @@ func (o *C19) AfterEnd(w *World) {
 				}
 			}
 		}
-	}
+	})
 }
